@@ -24,7 +24,7 @@ RULE = (
     "cache (the harness wraps the YAML library's load, later runs must report the new content); analyse through the "
     "API with a "
     "model file given by path (names with and without further dots, two files sharing a dotted prefix) and replace "
-    "such a file's content; switch the model file between two "
+    "such a file's content; switch the model file - and the ISA description used with it - between two "
     "contents A/B (B differs in latencies), also while a process that already loaded it is alive (in-process lookup after "
     "the edit); cut a cache file at an offset class {0 bytes, header only (1-16), "
     "mid-stream, last byte missing} or overwrite it with garbage; replace it by a cache of another format version (older or newer) holding "
@@ -61,6 +61,27 @@ def variant_text(arch, variant):
     return t
 
 
+def isa_variant_text(isa, variant):
+    """variant B of an ISA description: loads also read their destination registers (aarch64) / add $imm does not
+    read its register (x86) - the dependency graph, and with it the CP/LCD columns, differ"""
+    with open(os.path.join(env.REPO, "osaca", "data", "isa", isa + ".yml")) as fh:
+        t = fh.read()
+    if variant == "B":
+        if isa == "aarch64":
+            for key in ("    - name: [ldp, ldnp]", "    - name: [ldr, ldur"):
+                i = t.index(key)
+                j = t.index("    - name:", i + 10)
+                t = t[:i] + t[i:j].replace("source: false\n          destination: true",
+                                           "source: true\n          destination: true") + t[j:]
+        else:
+            i = t.index("    - name: add\n")
+            j = t.index("    - name:", i + 10)
+            t = t[:i] + t[i:j].replace("source: true\n          destination: true",
+                                       "source: false\n          destination: true", 1) + t[j:]
+        t += "\n# variant B\n"
+    return t
+
+
 class Sandbox:
     def __init__(self):
         self.home = tempfile.mkdtemp(prefix="verif-c17-")
@@ -70,8 +91,9 @@ class Sandbox:
         self.variant = {}
         for a in ARCHS:
             self.set_variant(a, "A")
+        self.isavariant = {}
         for i in ("x86", "aarch64"):
-            shutil.copy(os.path.join(env.REPO, "osaca", "data", "isa", i + ".yml"), os.path.join(self.data, "isa"))
+            self.set_isa_variant(i, "A")
         self.readonly = False
         self.user = os.path.join(self.home, "models")
         os.makedirs(self.user)
@@ -81,6 +103,11 @@ class Sandbox:
         with open(os.path.join(self.user, name), "w") as fh:
             fh.write(variant_text(arch, v))
         self.uservariant[name] = (arch, v)
+
+    def set_isa_variant(self, isa, v):
+        with open(os.path.join(self.data, "isa", isa + ".yml"), "w") as fh:
+            fh.write(isa_variant_text(isa, v))
+        self.isavariant[isa] = v
 
     def set_variant(self, arch, v):
         with open(os.path.join(self.data, arch + ".yml"), "w") as fh:
@@ -120,12 +147,13 @@ def kernel_code(name):
         return fh.read()
 
 
-def reference(arch, variant, kernel, fixed):
-    key = (arch, variant, kernel, fixed)
+def reference(arch, variant, kernel, fixed, isav="A"):
+    key = (arch, variant, kernel, fixed, isav)
     if key not in _REF:
         sb = Sandbox()
         try:
             sb.set_variant(arch, variant)
+            sb.set_isa_variant(env.isa_of(arch), isav)
             rc, out, err = cli.run_subprocess(argv_for(arch, fixed), code=kernel_code(kernel), home=sb.home)
             if rc != 0:
                 raise core.HarnessError("cold reference run failed: " + err[-500:])
@@ -305,7 +333,8 @@ class Interp:
         if rc != 0 or err.strip():
             raise Violation("run-fails:%s:%s" % (tag, state), "run fails / writes to stderr with cache state '%s' "
                             "(%s %s)" % (state, arch, step["kernel"]), (err or out)[-600:], "exit 0, empty stderr")
-        ref = reference(arch, sb.variant[arch], step["kernel"], step.get("fixed", False))
+        ref = reference(arch, sb.variant[arch], step["kernel"], step.get("fixed", False),
+                        sb.isavariant[env.isa_of(arch)])
         if report.normalise(out) != ref:
             gl, rl = report.normalise(out).split("\n"), ref.split("\n")
             raise Violation("report-differs:%s:%s" % (tag, state), "report with cache state '%s' differs from the "
@@ -374,7 +403,9 @@ class Interp:
             arch = step["arch"]
             if sb.readonly:
                 return
-            before = sb.variant[arch]
+            isa_ = env.isa_of(arch)
+            which = step.get("which", "arch")  # the micro-architecture file or the ISA description it is used with
+            before = sb.variant[arch] if which == "arch" else sb.isavariant[isa_]
             after = "B" if before == "A" else "A"
             d = tempfile.mkdtemp(prefix="verif-c17e-")
             p = os.path.join(d, "k.s")
@@ -382,10 +413,12 @@ class Interp:
                 fh.write(kernel_code(step["kernel"]))
             newmodel = os.path.join(d, "new.yml")
             with open(newmodel, "w") as fh:
-                fh.write(variant_text(arch, after))
+                fh.write(variant_text(arch, after) if which == "arch" else isa_variant_text(isa_, after))
+            target = os.path.join(sb.data, arch + ".yml") if which == "arch" else os.path.join(sb.data, "isa",
+                                                                                               isa_ + ".yml")
             e = env.child_env()
             e["HOME"] = sb.home
-            pr = subprocess.run([env.PY, "-c", EDIT, arch, p, newmodel, os.path.join(sb.data, arch + ".yml")], env=e,
+            pr = subprocess.run([env.PY, "-c", EDIT, arch, p, newmodel, target], env=e,
                                 capture_output=True, timeout=600)
             shutil.rmtree(d, ignore_errors=True)
             out, err = pr.stdout.decode(errors="replace"), pr.stderr.decode(errors="replace")
@@ -393,8 +426,11 @@ class Interp:
             if pr.returncode != 0 or len(parts) != 2:
                 self.check_run(step, pr.returncode or 1, out, err or "edit-in-process run failed")
             self.check_run(step, 0, parts[0], err, tagx=":before-edit")
-            sb.variant[arch] = after
-            self.check_run(step, 0, parts[1], err, tagx=":after-edit-same-process")
+            if which == "arch":
+                sb.variant[arch] = after
+            else:
+                sb.isavariant[isa_] = after
+            self.check_run(step, 0, parts[1], err, tagx=":after-%s-edit-same-process" % which)
             f["edit_after_cache"] = True
             f["written"].add((arch, sb.current_hash(arch)))
             f["checked"].append(len(self.history))
@@ -528,6 +564,11 @@ class Interp:
         elif op == "readonly":
             if not sb.set_readonly(step["on"]):
                 f["skipped_readonly"] += 1
+        elif op == "edit_isa":
+            isa_ = step["isa"]
+            if sb.isavariant[isa_] != step["variant"]:
+                sb.set_isa_variant(isa_, step["variant"])
+                f["edit_after_cache"] = f["edit_after_cache"] or bool(f["runs"])
         elif op == "edit":
             # (an immutable directory still allows rewriting the files in it)
             arch = step["arch"]
@@ -615,9 +656,13 @@ def make_machine(stats, failures_out):
         def twice(self, arch, k):
             self.step({"op": "twice", "arch": arch, "kernel": kernels_for(arch)[k]})
 
-        @rule(arch=st.sampled_from(ARCHS), k=st.integers(0, 2))
-        def edit_inproc(self, arch, k):
-            self.step({"op": "edit_inproc", "arch": arch, "kernel": kernels_for(arch)[k]})
+        @rule(arch=st.sampled_from(ARCHS), k=st.integers(0, 2), which=st.sampled_from(["arch", "arch", "isa"]))
+        def edit_inproc(self, arch, k, which):
+            self.step({"op": "edit_inproc", "arch": arch, "kernel": kernels_for(arch)[k], "which": which})
+
+        @rule(isa=st.sampled_from(["x86", "aarch64"]), variant=st.sampled_from(["A", "B"]))
+        def edit_isa(self, isa, variant):
+            self.step({"op": "edit_isa", "isa": isa, "variant": variant})
 
         @rule(name=st.sampled_from(USER_FILES), arch=st.sampled_from(ARCHS), variant=st.sampled_from(["A", "B"]))
         def api_set(self, name, arch, variant):
@@ -696,7 +741,11 @@ def fault_enumeration(archs, stats, failures):
         it = Interp()
         hist = [{"op": "run", "arch": arch, "kernel": kernels_for(arch)[0], "fixed": False},
                 {"op": "edit_inproc", "arch": arch, "kernel": kernels_for(arch)[0]},
-                {"op": "run", "arch": arch, "kernel": kernels_for(arch)[0], "fixed": False}]
+                {"op": "run", "arch": arch, "kernel": kernels_for(arch)[0], "fixed": False},
+                {"op": "edit_inproc", "arch": arch, "kernel": kernels_for(arch)[0], "which": "isa"},
+                {"op": "run", "arch": arch, "kernel": kernels_for(arch)[0], "fixed": False},
+                {"op": "edit_isa", "isa": env.isa_of(arch), "variant": "A"},
+                {"op": "run", "arch": arch, "kernel": kernels_for(arch)[1], "fixed": False}]
         try:
             for s_ in hist:
                 it.do(s_)
